@@ -341,6 +341,37 @@ func BuildSchemaWithHistory(specs []TypeSpec, at, readdFrom int, useBefore bool)
 	return ss
 }
 
+// nearMiss returns a variant of name that is not in names (another letter
+// case, a trailing space, a prefix), or "" for form 0 or when the variant is a
+// name.
+func nearMiss(_ string, names []string, name string, form int) string {
+	v := ""
+
+	switch form {
+	case 1:
+		v = strings.ToUpper(name)
+		if v == name {
+			v = strings.ToLower(name)
+		}
+	case 2:
+		v = name + " "
+	case 3:
+		v = strings.Title(name) //nolint:staticcheck // ASCII first letter is all that matters here
+	}
+
+	if v == "" || v == name {
+		return ""
+	}
+
+	for _, n := range names {
+		if n == v {
+			return ""
+		}
+	}
+
+	return v
+}
+
 // useSchema runs the read-only operations a request handler runs against a
 // schema: lookups, integrity check, relationship listing, parsing a URL,
 // unmarshaling a (minimal) resource fully and partially. Results are dropped.
@@ -699,6 +730,12 @@ func FillResource(t *rapid.T, res jsonapi.Resource, ts *TypeSpec, label string) 
 	for _, r := range ts.Rels {
 		v := RelIDs(t, r, label+"-"+r.FromName, 5, true)
 
+		// A to-many list may hold the empty ID (rarely).
+		if ids, ok := v.([]string); ok && rapid.IntRange(0, 11).Draw(t, label+"-"+r.FromName+"-emptyid") == 0 {
+			pos := rapid.IntRange(0, len(ids)).Draw(t, label+"-"+r.FromName+"-emptyidpos")
+			v = append(append(append([]string{}, ids[:pos]...), ""), ids[pos:]...)
+		}
+
 		// A to-many list may name an ID twice (rarely).
 		if ids, ok := v.([]string); ok && len(ids) > 0 && rapid.IntRange(0, 7).Draw(t, label+"-"+r.FromName+"-dup") == 0 {
 			v = append(ids, ids[rapid.IntRange(0, len(ids)-1).Draw(t, label+"-"+r.FromName+"-dupidx")])
@@ -727,6 +764,11 @@ func ShowVals(vals map[string]any) string {
 // owner. About half of the schemas are left without any fault. All types are soft.
 func IncoherentSchema(t *rapid.T) *SchemaSpec {
 	n := rapid.IntRange(1, 5).Draw(t, "ntypes")
+	if rapid.IntRange(0, 14).Draw(t, "manytypes") == 0 {
+		// a size at which an implementation may switch strategy
+		n = rapid.IntRange(15, 26).Draw(t, "ntypes-many")
+	}
+
 	typeNames := NamePool(t, n, "tname")
 	relPool := NamePool(t, 5, "rname")
 	faulty := rapid.Bool().Draw(t, "faulty")
@@ -753,7 +795,12 @@ func IncoherentSchema(t *rapid.T) *SchemaSpec {
 		return rapid.SampledFrom(pool).Draw(t, label)
 	}
 
-	ne := rapid.IntRange(0, 8).Draw(t, "nrels")
+	maxEdges := 8
+	if n > maxEdges {
+		maxEdges = n
+	}
+
+	ne := rapid.IntRange(0, maxEdges).Draw(t, "nrels")
 	for e := 0; e < ne; e++ {
 		a := rapid.IntRange(0, n-1).Draw(t, "owner")
 		b := rapid.IntRange(0, n-1).Draw(t, "target")
@@ -768,6 +815,12 @@ func IncoherentSchema(t *rapid.T) *SchemaSpec {
 
 		if fault("dangling", 6) {
 			rel.ToType = "ghost"
+
+			// ... or a name that only looks like a type's: another letter
+			// case, a space at the end
+			if v := nearMiss(rel.ToType, typeNames, rapid.SampledFrom(typeNames).Draw(t, "nearmiss-of"), rapid.IntRange(0, 3).Draw(t, "nearmiss-form")); v != "" {
+				rel.ToType = v
+			}
 		}
 
 		// The FromType of a one-way relationship is not constrained by Check
